@@ -1,5 +1,5 @@
 From Coq Require Import List NArith ZArith Bool.
-From LTV.C11 Require Import Model ProofsParams Proofs Proofs2 ProofsInv ProofsInv2 ProofsInv3 ProofsInv4.
+From LTV.C11 Require Import Model ProofsParams Proofs Proofs2 ProofsInv ProofsInv2 ProofsInv3 ProofsInv4 ProofsAlloc ProofsGlob ProofsLim.
 Import ListNotations.
 Local Open Scope Z_scope.
 
@@ -47,15 +47,42 @@ Theorem counters_inv : forall nt0 ng0 ops s, (0 < nt0)%nat -> (0 < ng0)%nat ->
 Proof. exact ProofsInv4.membership_inv. Qed.
 Print Assumptions counters_inv.
 
-(* the global counter is re-established (and checked by the code itself) at every tick; its
-   preservation by each single op between ticks is proved for the connection slot and the four
-   per-connection operations above (D unchanged); for close / balance_entry / balance / direct
-   cycle the bookkeeping of the returned counts is not proved: global_counter_partial *)
-Theorem global_counter_partial : forall s rs s', step s OTick rs = Ok s' ->
-  h_cur (s_up s') = fold_left (fun a q => a + q_cu q) (h_qs (s_up s')) 0 /\
-  h_cur (s_dn s') = fold_left (fun a q => a + q_cu q) (h_qs (s_dn s')) 0.
-Proof. exact ProofsInv4.global_counter_after_tick. Qed.
-Print Assumptions global_counter_partial.
+(* the global counter ResourceManager::m_currently{Upload,Download}Unchoked equals the sum of the
+   groups' currently_unchoked after every op list made of every op except the two unit-level entry
+   points production code never calls directly (choke_queue::balance(), and choke_queue::cycle()
+   outside ResourceManager::receive_tick): close, balance_entry, tick, group moves included. *)
+Theorem global_counter : forall nt0 ng0 ops s, (0 < nt0)%nat -> (0 < ng0)%nat ->
+  forallb (fun p => prod_op (fst p)) ops = true -> run (init nt0 ng0) ops = Ok s ->
+  h_cur (s_up s) = SQu (s_up s) /\ h_cur (s_dn s) = SQu (s_dn s).
+Proof. exact ProofsGlob.global_counter. Qed.
+Print Assumptions global_counter.
+
+(* allocate_slots_exact over the real heuristics tables: whenever choke_manager_allocate_slots
+   returns, target[i].first <= size of class i and the targets sum to min(max, candidates) *)
+Theorem allocate_slots_exact : forall (heur : nat) (choke : bool) s0 s1 s2 s3 mx h tg h',
+  allocate_slots (if choke then choke_table heur else unchoke_table heur) [s0; s1; s2; s3] mx h = Ok (tg, h') ->
+  length tg = 4%nat /\ (forall i, (i < 4)%nat -> (nthN tg i <= nthN [s0; s1; s2; s3] i)%N) /\
+  sum4 tg = N.min mx (s0 + s1 + s2 + s3)%N.
+Proof. exact ProofsAlloc.allocate_slots_exact_real. Qed.
+Print Assumptions allocate_slots_exact.
+
+(* cycle_no_throw, the allocation part: the unbounded "find start" loop of
+   choke_manager_allocate_slots never leaves the 4-element arrays and the function raises nothing.
+   Partial: the remaining throws of adjust_choke_range / cycle (first > size of class, count > max,
+   unchoked.size() > quota) need the bookkeeping of the local containers, which is not finished. *)
+Theorem cycle_no_throw_alloc_partial : forall (heur : nat) (choke : bool) s0 s1 s2 s3 mx h,
+  allocate_slots (if choke then choke_table heur else unchoke_table heur) [s0; s1; s2; s3] mx h <> Err EFault /\
+  allocate_slots (if choke then choke_table heur else unchoke_table heur) [s0; s1; s2; s3] mx h <> Err EInternal.
+Proof. exact ProofsAlloc.allocate_slots_no_fault_real. Qed.
+Print Assumptions cycle_no_throw_alloc_partial.
+
+(* locality of the connection slot: receive_{upload,download}_choke on connection c changes only
+   c's torrent entry and the queue of c's group (used for limits of cycle; limits_cycle itself is
+   not finished: limits_partial) *)
+Theorem limits_slot_locality_partial : forall v c choke h h' r, slot v c choke h = Ok (h', r) ->
+  Fr (grp_of h (tor_of h c)) h h'.
+Proof. exact ProofsLim.slot_Fr. Qed.
+Print Assumptions limits_slot_locality_partial.
 
 Theorem zero_on_close : forall nt0 ng0 ops s, (0 < nt0)%nat -> (0 < ng0)%nat ->
   run (init nt0 ng0) ops = Ok s ->
